@@ -601,6 +601,19 @@ class BaseIOStream:
         if self._read_future is not None:
             futures.append(self._read_future)
             self._read_future = None
+            # The pending read is about to fail; forget its criteria so
+            # they cannot outrank those of a later read from the buffer.
+            self._read_bytes = self._read_delimiter = self._read_regex = None
+            self._read_partial = False
+            if self._user_read_buffer:
+                # Undo read_into's buffer swap, keeping the bytes that
+                # had already arrived for later reads.
+                self._read_buffer = bytearray(
+                    memoryview(self._read_buffer)[: self._read_buffer_size]
+                ) + (self._after_user_read_buffer or b"")
+                self._after_user_read_buffer = None
+                self._user_read_buffer = False
+                self._read_buffer_size = len(self._read_buffer)
         futures += [future for _, future in self._write_futures]
         self._write_futures.clear()
         if self._connect_future is not None:
